@@ -770,6 +770,14 @@ func ratio(nu, de *Cell, confidence float64, r *rand.Rand, ratios []float64) (ce
 	low = percentile(ratios, p)
 	high = percentile(ratios, 1-p)
 	center = median(ratios)
+	// The interpolated percentiles can land on the wrong side of the median
+	// (by rounding, or for a narrow interval); the interval contains its center.
+	if low > center {
+		low = center
+	}
+	if high < center {
+		high = center
+	}
 	return
 }
 
